@@ -60,8 +60,34 @@ def nested_else(body):
     return any(op[0] == "else" and len(pr.labels[i]) >= 2 for i, op in enumerate(body))
 
 
+TERMINATORS = ("return", "unreachable", "br", "br_table")
+
+
+def both_arms_exit(b):
+    """an if/else whose then-arm ends in a jump / return / trap and whose else-arm leaves the function or the
+    construct too (exit bookkeeping must not treat the else-arm as dead code)"""
+    for i, op in enumerate(b):
+        if op[0] == "else" and b[i - 1][0] in TERMINATORS:
+            d = 0
+            for j in range(i + 1, len(b)):
+                k = b[j][0]
+                if k in ("block", "loop", "if"):
+                    d += 1
+                elif k == "end":
+                    if d == 0:
+                        break
+                    d -= 1
+                elif k in TERMINATORS:
+                    return True
+    return False
+
+
 def body_family(pid, tier, seed):
     fam = body_family0(pid, tier, seed)
+    if pid in ("C17", "C16"):
+        # targeted sub-family: the 36 budget-4 bodies `if <..exit> else <..exit> end`
+        seen = set(repr(b) for b in fam)
+        fam = fam + [b for b in F.bodies(4, 3) if both_arms_exit(b) and repr(b) not in seen]
     if pid in ("C21", "C19", "C18", "C20", "C16"):
         # targeted sub-family: budget-4 bodies with an if/else nested inside another construct (184 bodies)
         rnd = random.Random(2000 + seed)
@@ -161,6 +187,11 @@ def make_cases(pid, tier, seed):
                     # all three on one site
                     plans.append([{"at": i, "mode": "before", "marker": 7, "ops": F.probe_ops(7)}, {"at": i, "mode": "alt", "marker": 9, "ops": F.probe_ops(9)},
                                   {"at": i, "mode": "after", "marker": 11, "ops": F.probe_ops(11)}])
+            # the function's FINAL end is singled out by the property ("only before-code is emitted"): an alternate or
+            # a removal there must leave the end in place (other structural instructions get no alternates: unbalanced)
+            last = n - 1
+            for combo in (["alt"], ["empty_alt"], ["before", "alt"], ["alt", "after"], ["before", "empty_alt"]):
+                plans.append([{"at": last, "mode": m, "marker": 7 + 2 * j, "ops": F.probe_ops(7 + 2 * j) if m != "empty_alt" else []} for j, m in enumerate(combo)])
         if pid in ("C16", "C18", "C19", "C20", "C21") and len(body) <= (8 if tier == "quick" else 12):
             # two probes of different modes on the SAME instruction (lowering of one must not disturb the other)
             own = {"C18": ["block_entry"], "C19": ["block_exit"], "C20": ["semantic_after"], "C21": ["block_alt"],
@@ -175,6 +206,31 @@ def make_cases(pid, tier, seed):
                     if a[0]["mode"] == "block_alt":
                         continue   # probes on a replaced construct are removed with it
                     plans.append([a[0], dict(b[0], marker=9, ops=F.probe_ops(9))])
+        if pid == "C21" and len(body) <= 10:
+            # "all other instructions and their instrumentation are unaffected": a replaced construct B together with
+            # a probe on ANOTHER site A outside the replaced region (enclosing / sibling construct, plain instruction);
+            # both probes are judged.  Not generated: block-exit on an `if` that still contains a construct after the
+            # replacement (known finding block-exit-if-resolved-at-nested-end, C19's subject).
+            pr = Prog(body)
+            for bp in F.single_plans(body, ["block_alt", "empty_block_alt"]):
+                bat = bp[0]["at"]
+                lo, hi = bat, pr.match_end.get(bat, bat)
+                for ap in F.single_plans(body, ["block_exit", "block_entry", "before", "after"]):
+                    aat = ap[0]["at"]
+                    if lo <= aat <= hi:
+                        continue
+                    k = body[aat][0]
+                    if ap[0]["mode"] in ("before", "after") and k in F.STRUCTURAL:
+                        continue
+                    if ap[0]["mode"] == "block_exit" and k in ("if", "else"):
+                        alo, ahi = aat, pr.match_end.get(aat, aat)
+                        if any(body[j][0] in ("block", "loop", "if") and not (lo <= j <= hi) for j in range(alo + 1, ahi)):
+                            continue
+                        # ... nor when the replaced construct itself is an if WITH an else inside the probed `if`: the
+                        # pending exit code is flushed at that inner `else` (same known finding, measured on the clean tree)
+                        if alo < lo <= ahi and any(body[j][0] == "else" for j in range(lo, hi + 1)):
+                            continue
+                    plans.append([bp[0], dict(ap[0], marker=9, ops=F.probe_ops(9))])
         if pid == "C22" and len(body) <= 8:
             # a special-mode probe followed by a plain probe elsewhere in the same function (and the other way
             # round): a later injection must not make encoding forget the special one
@@ -386,6 +442,9 @@ def run_engine_t(pid, tier, seed, out, ev):
             # only the probes of this property's own modes are judged here; a second probe of another mode on the
             # same site is there to disturb the lowering, its own correctness belongs to that mode's property
             filters = sorted(set(p["marker"] for p in c["plan"] if p.get("ops") and p["mode"] in MODES[pid]))
+            if pid == "C21" and len(c["plan"]) == 2 and c["plan"][0].get("at") != c["plan"][1].get("at"):
+                # different sites: the other probe must be unaffected by the replacement - judged as well
+                filters = sorted(set(p["marker"] for p in c["plan"] if p.get("ops")))
             if pid == "C21" and not filters:
                 filters = [None]
         if pid == "C16":
